@@ -22,7 +22,8 @@ RULE = ("exchanges with a loopback HTTP server that records the raw request: mes
         ' ; open() on a refused connection; a proxy named only by the process environment is not used'
         ' ; a cookie set for another path; one Request sent again after the credentials changed'
         ' ; edge bytes at either end of a body; copied transports'
-        ' ; delivered once when the connection breaks; cookies of responses with unreadable bodies; white space outside ASCII in URLs')
+        ' ; delivered once when the connection breaks; cookies of responses with unreadable bodies; white space outside ASCII in URLs'
+        ' ; documents through the proxy and under a challenge; several schemes offered')
 ASSUMPTIONS = ["urllib / http.client / http.cookiejar / gzip / zlib are runtime (trusted); the loopback server is the "
                "independent observer of what is on the wire"]
 PARTIAL = [{"theorem": "body_fidelity / cookies / failures", "missing": "socket-level behaviour is runtime: checked by the "
